@@ -43,6 +43,7 @@ func init() {
 			ruleCORSOptionPlumbing(c, "R9")
 			ruleInternalKeyIsNotAMethod(c, "R10")
 			ruleListHeaderReadCompletely(c, "R11")
+			ruleHeaderNameCase(c, "R12")
 		},
 	})
 	register(&Spec{
@@ -188,38 +189,63 @@ func edgeAtoms(b *ssa.BasicBlock, succ int) []struct {
 	if !ok {
 		return nil
 	}
-	onTrue := succ == 0
-	cv, cneg := stripNot(ifi.Cond)
+	return valueAtoms(ifi.Cond, succ == 0, 0)
+}
+
+// valueAtoms: the facts implied by the boolean value v having the given truth. A phi that merges one computed value
+// with constants of the opposite truth (the compiler's `a && b`, `a || b`, or a variable that is preset and assigned
+// under a condition: `ok := false; if c { ok = x }`) is true only if that value is, and only if the branch
+// conditions that lead around the constant edges were taken.
+func valueAtoms(v ssa.Value, truth bool, depth int) []struct {
+	Cond  ssa.Value
+	Truth bool
+} {
+	type atom = struct {
+		Cond  ssa.Value
+		Truth bool
+	}
+	cv, neg := stripNot(v)
+	if neg {
+		truth = !truth
+	}
 	phi, isPhi := cv.(*ssa.Phi)
-	if !isPhi || (phi.Comment != "&&" && phi.Comment != "||") {
-		return []atom{{cv, onTrue != cneg}}
+	if !isPhi || depth > 4 || !isBoolType(phi.Type()) {
+		return []atom{{cv, truth}}
 	}
-	if cneg {
-		onTrue = !onTrue
-	}
-	var out []atom
-	want := "false" // && : other edges are constant false
-	if !onTrue {
+	want := "false" // other edges are the constant of the opposite truth
+	if !truth {
 		want = "true"
 	}
+	var out []atom
+	var computed []ssa.Value
 	for i, e := range phi.Edges {
-		if k, isC := e.(*ssa.Const); isC && k.Value != nil {
-			if k.Value.ExactString() != want {
-				return nil // not a pure conjunction (disjunction) on this edge
-			}
-			// the conjunct that short-circuited here: the If of the predecessor
-			pb := phi.Block().Preds[i]
-			if pif, ok := pb.Instrs[len(pb.Instrs)-1].(*ssa.If); ok {
-				v, neg := stripNot(pif.Cond)
-				// on this (unsatisfied) edge the conjunct was false; on the phi's true edge it was true
-				out = append(out, atom{v, onTrue != neg})
-			}
+		k, isC := e.(*ssa.Const)
+		if !isC || k.Value == nil {
+			computed = append(computed, e)
 			continue
 		}
-		v, neg := stripNot(e)
-		out = append(out, atom{v, onTrue != neg})
+		if k.Value.ExactString() != want {
+			return []atom{{cv, truth}} // not a pure conjunction (disjunction) in this direction
+		}
+		// the branch that led to this constant was not taken
+		pb := phi.Block().Preds[i]
+		if len(pb.Instrs) == 0 {
+			continue
+		}
+		if pif, ok := pb.Instrs[len(pb.Instrs)-1].(*ssa.If); ok && len(pb.Succs) == 2 {
+			pv, pneg := stripNot(pif.Cond)
+			switch phi.Block() {
+			case pb.Succs[1]: // the constant arrives over the false edge: the condition held on the other path
+				out = append(out, valueAtoms(pv, !pneg, depth+1)...)
+			case pb.Succs[0]:
+				out = append(out, valueAtoms(pv, pneg, depth+1)...)
+			}
+		}
 	}
-	return out
+	if len(computed) != 1 {
+		return []atom{{cv, truth}}
+	}
+	return append(out, valueAtoms(computed[0], truth, depth+1)...)
 }
 
 // edgeHas reports whether the edge establishes a fact accepted by pred.
@@ -281,6 +307,20 @@ func isHeaderGet(v ssa.Value, name string) bool {
 			}
 		}
 		return true
+	}
+	// a variable that holds the header value or its "not read" default, the empty string
+	if phi, ok := v.(*ssa.Phi); ok {
+		n := 0
+		for _, e := range phi.Edges {
+			if s, isC := strConst(e); isC && s == "" {
+				continue
+			}
+			if e == v || !isHeaderGet(e, name) {
+				return false
+			}
+			n++
+		}
+		return n > 0
 	}
 	// a result of a module function that returns the header value on every path
 	idx := 0
@@ -1339,6 +1379,12 @@ func ruleGrantComplete(c *Ctx, rule string) {
 			}
 			if call, ok := v.(*ssa.Call); ok && an.StaticCallee(&call.Call) == isAllowed {
 				return !neg, true
+			}
+			// the receiver and the parameters are what the router hands in: none of them is nil
+			if x, k, eq, okA := an.CondAtom(cond); okA && k.Value == nil {
+				if _, isPar := x.(*ssa.Parameter); isPar {
+					return !eq, true
+				}
 			}
 			if val, ok := membershipAssume(cond); ok {
 				return val, true
